@@ -594,3 +594,140 @@ def _searchsorted(interp, args, kwargs):
     ctx.hint(k)
     ctx.ghost.setdefault('searchsorted_calls', []).append((a, v, k))
     return SInt(k, 'npint')
+
+
+# ---------------------------------------------------------------------------------------------
+# concrete-length 1-D arrays (step lists of scaler.step_scale): a Python list of scalar values tagged as an ndarray
+# ---------------------------------------------------------------------------------------------
+
+class CArr(Model):
+    """1-D numpy array whose *length* is a concrete Python int; elements are executor-level scalars"""
+    pytype = 'ndarray'
+    sym_iter_ok = False
+
+    def __init__(self, items, dtype='float'):
+        self.items = list(items)
+        self.dtype = dtype
+
+    def __iter__(self):
+        raise TypeError('CArr is not iterable natively')
+
+    def sym_len(self, ctx):
+        return len(self.items)
+
+    def _other(self, other):
+        if isinstance(other, CArr):
+            o = other.items
+        elif isinstance(other, list) and all(is_numlike(v) for v in other):
+            o = list(other)               # numpy converts the list operand with np.asarray
+        elif is_numlike(other):
+            return [other] * len(self.items)
+        else:
+            raise Unsupported('CArr operand')
+        if len(o) != len(self.items):
+            if len(o) == 1:
+                return o * len(self.items)
+            if len(self.items) == 1:
+                raise Unsupported('CArr broadcasting of a 1-element left operand')
+            from .engine import PyRaise
+            raise PyRaise('ValueError', 'operands could not be broadcast together')
+        return o
+
+    def sym_binop(self, ctx, op, other, reflected):
+        from .engine import num_binop
+        o = self._other(other)
+        out = []
+        for x, y in zip(self.items, o):
+            a, b = (y, x) if reflected else (x, y)
+            out.append(num_binop(ctx, op, a, b))      # scalar partial operations emit their own safety obligations
+        return CArr(out, 'float' if op == 'Div' or any(is_floatlike(v) for v in out) else self.dtype)
+
+    def sym_compare(self, ctx, op, other, reflected):
+        from .engine import num_compare, _FLIP
+        o = self._other(other)
+        out = []
+        for x, y in zip(self.items, o):
+            r = num_compare(_FLIP[op] if reflected else op, x, y)
+            out.append(r)
+        return CArr(out, 'bool')
+
+    def sym_getitem(self, ctx, idx):
+        if isinstance(idx, slice):
+            if not all(v is None or isinstance(v, int) for v in (idx.start, idx.stop, idx.step)):
+                raise Unsupported('CArr slice with symbolic bounds')
+            return CArr(self.items[idx], self.dtype)
+        if isinstance(idx, int):
+            if not -len(self.items) <= idx < len(self.items):
+                from .engine import PyRaise
+                raise PyRaise('IndexError', 'CArr index')
+            return self.items[idx]
+        raise Unsupported('CArr index kind')
+
+
+def _elements(x):
+    """the elements of a concrete-length 1-D operand, or None"""
+    if isinstance(x, CArr):
+        return list(x.items)
+    if isinstance(x, (list, tuple)) and all(is_numlike(v) for v in x):
+        return list(x)
+    if isinstance(x, SArr) and z3.is_int_value(x.n):
+        return [x.at(z3.IntVal(k)) for k in range(x.n.as_long())]
+    return None
+
+
+@model('numpy.diff', 'np.diff(a) of a 1-D sequence of k numbers: the k-1 differences a[j+1] - a[j] (empty for k <= 1)')
+def _np_diff(interp, args, kwargs):
+    from .engine import num_binop
+    (x,) = args
+    el = _elements(x)
+    if kwargs or el is None:
+        raise Unsupported('np.diff shape')
+    return CArr([num_binop(interp.ctx, 'Sub', el[j + 1], el[j]) for j in range(len(el) - 1)], 'float')
+
+
+def _np_sum_c(interp, args, kwargs):
+    from .engine import num_binop
+    (x,) = args
+    el = _elements(x)
+    if kwargs or el is None:
+        raise Unsupported('np.sum of this value')
+    out = SFloat(0, False, 'npfloat') if (isinstance(x, CArr) and x.dtype == 'float') or not el else 0
+    for v in el:
+        out = num_binop(interp.ctx, 'Add', out, v)
+    return out
+
+
+LIB['numpy.sum'] = _np_sum_c
+LIB_DOC['numpy.sum'] = 'np.sum(a) of a 1-D sequence of k numbers (k concrete): their sum, 0.0 for the empty float array'
+
+
+@model('numpy.concatenate', 'np.concatenate((a, b)) of 1-D arrays of concrete lengths: the elements of a followed by those of b')
+def _np_concatenate(interp, args, kwargs):
+    (parts,) = args
+    if kwargs or not isinstance(parts, (tuple, list)):
+        raise Unsupported('np.concatenate shape')
+    out = []
+    for p in parts:
+        el = _elements(p)
+        if el is None or not isinstance(p, (CArr, SArr)):
+            raise Unsupported('np.concatenate operand')
+        out.extend(el)
+    return CArr(out, 'float')
+
+
+_any_prev, _all_prev = LIB['numpy.any'], LIB['numpy.all']
+
+
+def _any_c(interp, args, kwargs):
+    if len(args) == 1 and isinstance(args[0], CArr):
+        return _any_prev(interp, [list(args[0].items)], kwargs)
+    return _any_prev(interp, args, kwargs)
+
+
+def _all_c(interp, args, kwargs):
+    if len(args) == 1 and isinstance(args[0], CArr):
+        return _all_prev(interp, [list(args[0].items)], kwargs)
+    return _all_prev(interp, args, kwargs)
+
+
+LIB['numpy.any'], LIB['numpy.all'] = _any_c, _all_c
